@@ -46,7 +46,9 @@ func cmdWhile(p *lang.Process) error {
 
 		for {
 			if p.HasCancelled() {
-				return errors.New(errCancelled)
+				// `break`, `continue` and `return` end a loop by cancelling it: like
+				// `foreach` and `while { } { }`, that is not a failure of the loop
+				return nil
 			}
 
 			iteration++
